@@ -157,7 +157,8 @@ def _colliding_key(krepr: str):
         return None
     if not (isinstance(d, tuple) and d[0] == "d" and isinstance(d[1], tuple)):
         return None
-    if d[1][0] in ("min", "max") and "('keys', 'D')" in repr(d[1]):
+    from ..harness import agg_over_keys
+    if d[1][0] in ("min", "max") and agg_over_keys(d[1]):
         # the extreme key itself (offset 0): always a key of the base
         return (f"{d[1][0]}(keys)", "whatever its keys are: that key belongs to a conditional of the base")
     if d[1][0] != "lin":
@@ -165,7 +166,7 @@ def _colliding_key(krepr: str):
     terms, const = d[1][1]
     if len(terms) == 1 and terms[0][1] == 1 and isinstance(terms[0][0], tuple) and terms[0][0][0] == "len" and "('keys', 'D')" in repr(terms[0][0]):
         return (f"len(conditionals){const:+d}", f"of n conditionals one of which is keyed n{const:+d}")
-    if len(terms) == 1 and terms[0][1] == 1 and isinstance(terms[0][0], tuple) and terms[0][0][0] in ("min", "max") and "('keys', 'D')" in repr(terms[0][0]):
+    if len(terms) == 1 and terms[0][1] == 1 and isinstance(terms[0][0], tuple) and terms[0][0][0] in ("min", "max") and agg_over_keys(terms[0][0]):
         side = terms[0][0][0]
         if (side == "min" and const >= 0) or (side == "max" and const <= 0):
             return (f"{side}(keys){const:+d}", f"keyed by consecutive integers with more than {abs(const)} conditionals")
@@ -192,7 +193,7 @@ def _fresh_key(krepr: str) -> bool:
     (t, c), = terms
     if c != 1 or not (isinstance(t, tuple) and t and t[0] in ("min", "max")):
         return False
-    over_keys = "('keys', 'D')" in repr(t)
-    if not over_keys:
+    from ..harness import agg_over_keys
+    if not agg_over_keys(t):
         return False
     return (t[0] == "min" and const <= -1) or (t[0] == "max" and const >= 1)
